@@ -3,7 +3,18 @@ package main
 import (
 	"net/http"
 	"sort"
+
+	"github.com/issue9/mux/v9"
 )
+
+func hasPanicStep(p []Step) bool {
+	for _, s := range p {
+		if s.K == "panic" {
+			return true
+		}
+	}
+	return false
+}
 
 // ---------------------------------------------------------------- head family (C08)
 // Every handler program is installed as the GET handler of a fresh router and requested
@@ -44,7 +55,12 @@ func (rn *runner) runHeadCase(c *Case) {
 		op := &c.Ops[i]
 		e := &env{}
 		cfg := &Cfg{Name: "r"}
-		r := e.newRouter(cfg)
+		var r *mux.Router[*H]
+		if hasPanicStep(op.Prog) { // a panicking program runs under a bundled recovery option
+			r = mux.NewRouter[*H]("r", e.call, &H{kind: "404"}, b405, bopt, mux.WithStatusRecovery(500))
+		} else {
+			r = e.newRouter(cfg)
+		}
 		r.Get("/h", &H{kind: "route", id: "h", prog: op.Prog})
 		g := e.serve(r, mkRequest("GET", "/h", "", nil))
 		h := e.serve(r, mkRequest("HEAD", "/h", "", nil))
